@@ -113,6 +113,9 @@ LABEL_SITES = {
     # the label-values / series requests of harness sqlinject as rows of model/ScansPlanners.v (V = the value under test)
     "labels.values.label": lambda V: "(lv %%d %s %s ())" % (lv_ctx(False, 1), V),
     "labels.values.label.cluster": lambda V: "(lv %%d %s %s ((%s)))" % (lv_ctx(True, 1), V, lv_m("a", "MEq", "b")),
+    # round 6 (seeded C10-f): the URL label name beside selectors holding the driver's bind placeholders
+    "labels.values.label.placeholders": lambda V: "(lv %%d %s %s ((%s %s)))" % (lv_ctx(False, 1), V, lv_m("a", "MEq", "x$1y"), lv_m("b", "MRe", "$1|z")),
+    "labels.promvalues.label.placeholders": lambda V: "(lv %%d %s %s ((%s %s)))" % (lv_ctx(False, 2), V, lv_m("job", "MEq", "x$1y"), lv_m("__name__", "MEq", "up")),
     "labels.values.match": lambda V: "(lv %%d %s %s ((%s) (%s)))" % (lv_ctx(False, 1), p17.sx_str("lbl"), lv_m("a", "MEq", V), lv_m("c", "MRe", "d")),
     "labels.values.match.re": lambda V: "(lv %%d %s %s ((%s)))" % (lv_ctx(False, 1), p17.sx_str("lbl"), lv_m("a", "MRe", V)),
     "labels.series.match": lambda V: "(lv %%d %s - ((%s)))" % (lv_ctx(False, 1), lv_m("a", "MRe", V)),
